@@ -191,7 +191,7 @@ def mutations(rng, n):
 def run(tier, seed, open_findings):
     rng = random.Random(seed)
     cases = [(ver, t, v) for ver in ('1.0', '1.1') for t in TYPES for v in cat_for(t) if (t, v) not in REPORT_ONLY]
-    muts = [(ver, t, v) for t, v in mutations(rng, 3000 if tier == 'thorough' else 600) for ver in ('1.0', '1.1')]
+    muts = [(ver, t, v) for t, v in mutations(rng, 30000 if tier == 'thorough' else 600) for ver in ('1.0', '1.1')]
     out = []
     for label, cs, exhaustive in (('C02.boundary_catalogue', cases, True), ('C02.seeded_mutations', muts, False)):
         res = pmap(eval_case, cs)
